@@ -130,6 +130,23 @@ func c06Base(seed int64, kind string) *c06Stream {
 			&pidUnits{0x100, []SUnit{lookalikePES(0x100, 51, seed), lookalikePES(0x100, 52, seed), PESUnit(0x100, 0xe0, pesPayload(53, 100, seed), 53, false), lookalikePES(0x100, 54, seed)}, 12},
 			&pidUnits{0x101, []SUnit{PESUnit(0x101, 0xc0, pesPayload(55, 300, seed), 55, true), PESUnit(0x101, 0xc0, pesPayload(56, 30, seed), 56, true)}, 0},
 		)
+	} else if kind == "singles" {
+		// PIDs whose units are one packet each: 40 PES packets, 36 PATs that all differ (so that the counter of a
+		// unit says nothing about which unit it is), a two-packet video PID in between
+		var pes, pats []SUnit
+		for k := 0; k < 40; k++ {
+			pes = append(pes, PESUnit(0x100, 0xc0, pesPayload(400+k, 60+k, seed), uint64(400+k), true))
+		}
+		for k := 0; k < 36; k++ {
+			pat := modelPAT(1, 0x1000)
+			pat.TransportStreamID = uint16(0x700 + k)
+			pats = append(pats, PSIUnit(0, 0, [][]byte{SecPAT(pat, ref.SecHdr{CNI: true, Version: uint8(k % 32)})}, nil))
+		}
+		pids = []*pidUnits{
+			{0x100, pes, 9},
+			{0, pats, 3},
+			{0x101, []SUnit{PESUnit(0x101, 0xe0, pesPayload(480, 184*2-14-5, seed), 480, false), PESUnit(0x101, 0xe0, pesPayload(481, 184*2-14-5, seed), 481, false)}, 0},
+		}
 	} else if kind == "repeated-tables" {
 		// the tables of a programme repeated as a multiplexer does: PAT three times, the PMT six times (twice per PAT
 		// period), a video PID in between
@@ -540,7 +557,7 @@ func checkC06(c *mc.Ctx) {
 	c.Ev.Rule = "(a) every single duplication, every single deletion, every burst and every pair of faults on well-formed base streams, outputs of the real Demuxer related as the statement demands; (b) all packet sequences up to the length bound over the alphabet {continuity delta dup/+1/+2} x {PUSI} x {payload, AF-only, TEI, discontinuity_indicator} for PID A plus packets of PID B, safety oracle on the delivered units; distinct_nontrivial = distinct fault sets / sequences"
 	c.Ev.Assumptions = append(c.Ev.Assumptions, "a duplicate is a byte-identical copy inserted immediately after the original (ISO 13818-1 2.4.3.3)",
 		"loss relation evaluated only for PIDs where fewer than 16 packets in a row are lost and a later payload packet of the PID survives")
-	for _, kind := range []string{"mixed", "long", "lookalike", "repeated-tables", "continuous-si"} {
+	for _, kind := range []string{"mixed", "long", "lookalike", "repeated-tables", "continuous-si", "singles"} {
 		long := kind == "long"
 		st := c06Base(c.Seed, kind)
 		cleanOut := DemuxBytes(EncodePkts(st.Pkts))
@@ -557,10 +574,16 @@ func checkC06(c *mc.Ctx) {
 				sets = append(sets, b)
 			}
 		}
-		if long { // 15 consecutive packets of one PID lost, every start
+		burstPIDs := []uint16{}
+		if long {
+			burstPIDs = []uint16{0x100}
+		} else if kind == "singles" {
+			burstPIDs = []uint16{0x100, 0}
+		}
+		for _, bp := range burstPIDs { // up to 15 consecutive packets of one PID lost, every start
 			var idx []int
 			for i, p := range st.Pkts {
-				if p.PID == 0x100 {
+				if p.PID == bp {
 					idx = append(idx, i)
 				}
 			}
@@ -574,10 +597,13 @@ func checkC06(c *mc.Ctx) {
 					if l == 15 {
 						c.Ev.Class("burst-of-15", 1)
 					}
+					if l >= 14 && kind == "singles" {
+						c.Ev.Class("burst-of-14-or-15-on-single-packet-units", 1)
+					}
 				}
 			}
 		}
-		if !long || c.Thorough() {
+		if !(long || kind == "singles") || c.Thorough() {
 			for i := 0; i < n; i++ {
 				for j := i + 1; j < n; j++ {
 					for _, a := range []byte{'d', 'x', 'D'} {
@@ -611,7 +637,7 @@ func checkC06(c *mc.Ctx) {
 			Bound: fmt.Sprintf("%d packets: every single duplicate, double duplicate, deletion, burst of 2..3 (and every burst of 4..15 packets of one PID), every pair of faults", n)})
 	}
 	c06Sequences(c)
-	c.Ev.Require("duplicate-inserted", "packet-deleted", "burst-of-15", "seq-unit-delivered", "seq-duplicate-skipped", "seq-gap")
+	c.Ev.Require("duplicate-inserted", "packet-deleted", "burst-of-15", "burst-of-14-or-15-on-single-packet-units", "seq-unit-delivered", "seq-duplicate-skipped", "seq-gap")
 }
 
 // ---------------------------------------------------------------------------------------
